@@ -141,7 +141,8 @@ def drive_resampler(rng, n, w, scheme, blobs):
             upd["blobs"] = p.astype(float) + 0.5
         sm.update_current(upd)
         sm.commit_current_to_history()
-    sm.set_current("beta", 0.5)
+    # any positive temperature (the first annealing step of a sharply peaked problem is ~1e-5 or smaller) must be resampled
+    sm.set_current("beta", float(rng.choice([5e-324, 1e-300, 1e-12, 1e-7, 1e-5, 9.9e-5, 1e-3, 0.5, 1 - 1e-9, 1.0])))
     wn = w / w.sum()
     rs = Resampler(sm, n_particles=n, resample=scheme, clusterer=None, clustering=False, have_blobs=blobs)
     try:
@@ -215,7 +216,7 @@ def multinomial_counts(ck):
         sm.update_current(dict(u=np.arange(m, dtype=float).reshape(-1, 1) / m, x=np.arange(m, dtype=float).reshape(-1, 1),
                                logl=-np.arange(m, dtype=float), beta=0.3, logz=0.0))
         sm.commit_current_to_history()
-        sm.set_current("beta", 0.3)
+        sm.set_current("beta", [0.3, 1e-6, 1.0, 6e-5][c % 4])
         rs = Resampler(sm, n_particles=n, resample="mult", clusterer=None, clustering=False)
 
         # what exactly is drawn from?  (the interposer logs the arguments of np.random.choice)
